@@ -9,6 +9,14 @@ def main():
     a = ap.parse_args()
     import os
     tier = a.tier or os.environ.get('VERIF_TIER') or 'quick'
+    # overall watchdog: a check must never hang (a solve that does not terminate inside a worker would block the pool)
+    import signal
+
+    def _timeout(signum, frame):
+        print(f'HARNESS-ERROR: {a.pid} {tier} did not finish within its time budget (a worker may be stuck in a non-terminating solve)', file=sys.stderr)
+        os._exit(3)
+    signal.signal(signal.SIGALRM, _timeout)
+    signal.alarm(int(os.environ.get('HV_TIMEOUT', 3000 if tier == 'quick' else 8 * 3600)))
     mod = importlib.import_module(f'hv.props.{a.pid.lower()}')
     if a.replay:
         with open(a.replay) as f:
